@@ -151,8 +151,8 @@ def catalog(hl):
     def arrstruct(t):
         return arr(t) and struct(t.element_type)
 
-    def f0(u):
-        return list(u.dtype)[0]
+    def f0(t):
+        return list(t)[0]
 
     T = [
         # numeric
@@ -199,7 +199,7 @@ def catalog(hl):
         ('coalesce_coerce', 'v', num, lambda u: hl.coalesce(u, 1.5)),
         ('cmp_mixed', 'b', num, lambda u: u == 1.5),
         ('approx', 'b', num, lambda u: hl.approx_equal(u, 1.0)),
-        ('dbinom', 'v', integral, lambda u: hl.dbinom(hl.int32(u), 10, 0.5)),
+        ('dpois', 'v', num, lambda u: hl.dpois(hl.float64(u), 2.0)),
         # any type
         ('eq_self', 'b', anyt, lambda u: u == u),
         ('ne_self', 'b', anyt, lambda u: u != u),
@@ -414,6 +414,8 @@ def catalog(hl):
     return T
 
 
+MINI_TEMPLATES = ('truediv', 'to_str', 'arr_of', 'struct_of', 'map_struct', 'idx0', 'field0', 'lt1', 'agg_collect', 'if_missing')
+MINI_LITS = ('int', 'str', 'list_int_none', 'struct_nested', 'dict_str_int')
 CORE_TEMPLATES = ('add1', 'truediv', 'to_str', 'arr_of', 'struct_of', 'if_missing', 'map_struct', 'idx0', 'field0', 'lt1',
                   'is_defined', 'dict_of', 'len', 'sorted', 'agg_collect', 'agg_sum', 'scan_count', 'keys', 'tuple_of',
                   'if_coerce', 'eq_self')
@@ -696,14 +698,22 @@ def _tmpl_sets(level):
     if level == 'core':
         cat = [t for t in cat if t[0] in CORE_TEMPLATES]
         dom = [d for d in dom if d[0] in CORE_LITS]
+    if level == 'mini':
+        cat = [t for t in cat if t[0] in MINI_TEMPLATES]
+        dom = [d for d in dom if d[0] in MINI_LITS]
     return cat, dom
 
 
-def steps_for(ds, kind, level, depth):
-    """the applicable steps of a dataset, as descriptors (JSON-able tuples), in a fixed order"""
+def steps_for(ds, kind, level, fresh=None):
+    """the applicable steps of a dataset, as descriptors (JSON-able tuples), in a fixed order.
+    fresh: None = templates range over every field; else only over the fields named in `fresh` (those that earlier
+    steps of the program created)."""
     cat, dom = _tmpl_sets(level)
-    core_cat, core_dom = _tmpl_sets('core')
+    core_cat, core_dom = _tmpl_sets('core' if level == 'full' else level)
     out = []
+
+    def keep(fields):
+        return fields if fresh is None else [(f, t) for f, t in fields if f in fresh]
 
     def applicable(cats, fields, kinds):
         for f, t in fields:
@@ -712,9 +722,10 @@ def steps_for(ds, kind, level, depth):
                     yield name, f
 
     if kind == 'ht':
-        row_fields = [(f, ds[f].dtype) for f in ds.row]
-        glob_fields = [(f, ds[f].dtype) for f in ds.globals]
-        nonkey = [f for f in ds.row if f not in ds.key]
+        all_row_fields = [(f, ds[f].dtype) for f in ds.row]
+        row_fields = keep(all_row_fields)
+        glob_fields = keep([(f, ds[f].dtype) for f in ds.globals])
+        nonkey = [f for f, _ in row_fields if f not in ds.key]
         for name, f in applicable(cat, row_fields, ('v', 'b', 'scan')):
             out.append(('annotate', name, f))
         for lit, _ in dom:
@@ -740,23 +751,23 @@ def steps_for(ds, kind, level, depth):
             out.append(('aggregate', name, f))
         out.append(('select_globals_none',))
         out.append(('add_index',))
-        out.append(('group_by_agg', row_fields[0][0]))
+        out.append(('group_by_agg', all_row_fields[-1][0]))
         out.append(('union_self',))
         out.append(('join_self',))
         out.append(('index_self',))
         out.append(('to_matrix_like', ))
-        out.append(('rename', row_fields[-1][0]))
+        out.append(('rename', all_row_fields[-1][0]))
         out.append(('distinct',))
         out.append(('head',))
-        out.append(('order_by', row_fields[-1][0]))
+        out.append(('order_by', all_row_fields[-1][0]))
         out.append(('localize_false_collect',))
         out.append(('flatten',))
         out.append(('expand_types',))
     else:
-        row_fields = [(f, ds[f].dtype) for f in ds.row]
-        col_fields = [(f, ds[f].dtype) for f in ds.col]
-        entry_fields = [(f, ds[f].dtype) for f in ds.entry]
-        glob_fields = [(f, ds[f].dtype) for f in ds.globals]
+        row_fields = keep([(f, ds[f].dtype) for f in ds.row])
+        col_fields = keep([(f, ds[f].dtype) for f in ds.col])
+        entry_fields = keep([(f, ds[f].dtype) for f in ds.entry])
+        glob_fields = keep([(f, ds[f].dtype) for f in ds.globals])
         for name, f in applicable(cat, row_fields, ('v', 'b')):
             out.append(('annotate_rows', name, f))
         for name, f in applicable(core_cat, col_fields, ('v', 'b')):
@@ -790,7 +801,7 @@ def steps_for(ds, kind, level, depth):
             out.append(('aggregate_rows', name, f))
         for name, f in applicable(core_cat, col_fields, ('agg',)):
             out.append(('aggregate_cols', name, f))
-        for f, _ in entry_fields + [(x, None) for x in ds.row if x not in ds.row_key] + [(x, None) for x in ds.col if x not in ds.col_key]:
+        for f, _ in entry_fields + [(x, None) for x, _ in row_fields if x not in ds.row_key] + [(x, None) for x, _ in col_fields if x not in ds.col_key]:
             out.append(('drop', f))
         out += [('rows',), ('cols',), ('entries',), ('localize_entries',), ('key_rows_by_none',), ('transmute_entries',),
                 ('add_row_index',), ('add_col_index',), ('unfilter_entries',), ('make_table',), ('globals_table',),
@@ -973,16 +984,44 @@ def apply_step(acc, ds, kind, step, depth, prog):
     raise HarnessGap(f'unknown step {step}')
 
 
-def explore(acc, ds, kind, depth, max_depth, levels, prog):
+def field_names(ds, kind):
+    if kind == 'ht':
+        return set(ds.row) | set(ds.globals)
+    return set(ds.row) | set(ds.col) | set(ds.entry) | set(ds.globals)
+
+
+def schema_sig(ds, kind):
+    return f'{kind}:{ds._tir.typ if kind == "ht" else ds._mir.typ}'
+
+
+class Plan:
+    """levels[d-1]: catalogue for step d.  fresh_from: steps at depth >= fresh_from apply templates only to fields created by
+    earlier steps.  dedupe: expand a dataset only if no dataset with the same schema was expanded at that depth (in this job).
+    count_from: programs shallower than this are rebuilt silently (another plan counts and checks them)."""
+
+    def __init__(self, levels, fresh_from, dedupe, count_from=1):
+        self.levels = levels
+        self.max_depth = len(levels)
+        self.fresh_from = fresh_from
+        self.dedupe = dedupe
+        self.count_from = count_from
+        self.seen = {}
+
+
+def explore(acc, ds, kind, depth, plan, prog, seed_fields):
     """depth-first over the prefix tree; every node reached is one program"""
-    if depth > max_depth:
+    if depth > plan.max_depth:
         return
-    for step in steps_for(ds, kind, levels[depth - 1], depth):
-        run_step(acc, ds, kind, step, depth, max_depth, levels, prog)
+    fresh = None if depth < plan.fresh_from else field_names(ds, kind) - seed_fields
+    for step in steps_for(ds, kind, plan.levels[depth - 1], fresh):
+        run_step(acc, ds, kind, step, depth, plan, prog, seed_fields)
 
 
-def run_step(acc, ds, kind, step, depth, max_depth, levels, prog):
+def run_step(acc, ds, kind, step, depth, plan, prog, seed_fields):
     prog2 = prog + [list(step)]
+    real = acc
+    if depth < plan.count_from:
+        acc = Acc()
     acc.inc('programs')
     acc.inc(f'programs_depth{depth}')
     try:
@@ -997,7 +1036,7 @@ def run_step(acc, ds, kind, step, depth, max_depth, levels, prog):
         elif cls == 'reject':
             acc.inc('rejected')
             acc.inc(f'rejected:{label}')
-            acc.inc(f'rejected_step:{step[0]}:{step[1] if len(step) > 2 else ""}')
+            acc.inc(f'rejected_step:{step[0]}:{step[1] if len(step) > 2 else ""}:{label}')
         elif cls == 'engine':
             acc.inc('needs_engine')
             acc.inc(f'needs_engine_step:{step[0]}')
@@ -1007,10 +1046,17 @@ def run_step(acc, ds, kind, step, depth, max_depth, levels, prog):
         return
     acc.inc('accepted')
     acc.inc(f'accepted_step:{step[0]}:{step[1] if len(step) > 2 else ""}')
-    if len(acc.samples) < 2 and depth == max_depth:
+    if len(acc.samples) < 2 and depth == plan.max_depth:
         acc.samples.append({'program': prog2, 'result': str(new.row.dtype) if new is not None else 'expression'})
-    if new is not None:
-        explore(acc, new, nk, depth + 1, max_depth, levels, prog2)
+    if new is not None and depth < plan.max_depth:
+        if plan.dedupe:
+            sig = schema_sig(new, nk)
+            seen = plan.seen.setdefault(depth, set())
+            if sig in seen:
+                real.inc('expansions_skipped_same_schema')
+                return
+            seen.add(sig)
+        explore(real, new, nk, depth + 1, plan, prog2, seed_fields)
 
 
 # ---------------------------------------------------------------------------------------------------------------
@@ -1145,74 +1191,125 @@ def check_literals(acc):
 # ---------------------------------------------------------------------------------------------------------------
 
 
-def _levels(tier):
-    return {'quick': (('full', 'full'), ('full', 'core', 'core')), 'thorough': (('full', 'full'), ('full', 'full', 'core'))}[tier]
+PLANS = {
+    # name: (levels, fresh_from, dedupe, count_from)
+    'q2': (('full', 'full'), 2, True, 1),
+    'q3': (('mini', 'mini', 'mini'), 2, True, 3),
+    't2': (('full', 'full'), 99, False, 1),
+    't3': (('full', 'core', 'core'), 2, True, 3),
+}
+TIER_PLANS = {'quick': ('q2', 'q3'), 'thorough': ('t2', 't3')}
 
 
 def _job(job):
-    _hl()
-    seed_i, levels, max_depth, first = job
-    name, kind, mk = seeds(_hl())[seed_i]
+    hl = _hl()
+    seed_i, plan_name, first = job
+    name, kind, mk = seeds(hl)[seed_i]
+    plan = Plan(*PLANS[plan_name])
     acc = Acc()
     ds = mk()
-    if first is None:
-        check_table(acc, ds, [[name]], 'seed') if kind == 'ht' else check_mt(acc, ds, [[name]], 'seed')
-    else:
-        run_step(acc, ds, kind, tuple(first), 1, max_depth, levels, [[name]])
+    sf = field_names(ds, kind)
+    # the first step was counted and checked by the coordinator; rebuild it silently, then explore below it
+    try:
+        new, nk = apply_step(Acc(), ds, kind, tuple(first), 1, [[name], list(first)])
+    except Exception as e:  # noqa: BLE001
+        raise HarnessGap(f'first step {first} was accepted by the coordinator but raised in the worker: {e!r}') from e
+    explore(acc, new, nk, 2, plan, [[name], list(first)], sf)
     return acc.c, acc.viol, acc.samples, sorted(acc.types)
 
 
 def check(tier, seed, procs):
     hl = _hl()
-    lv2, lv3 = _levels(tier)
-    jobs = []
-    for i, (name, kind, mk) in enumerate(seeds(hl)):
-        jobs.append((i, lv3, 3, None))
-        ds = mk()
-        firsts3 = steps_for(ds, kind, lv3[0], 1)
-        for st in firsts3:
-            jobs.append((i, lv3, 3, st))
-    # depth-2 programs with the full catalogue at both steps are a superset of the depth<=2 part of the depth-3 plan when
-    # lv3[1] is 'core'; run them as a separate plan and count programs of both (the overlap is stated in the bounds)
-    if lv3[1] != 'full':
-        for i, (name, kind, mk) in enumerate(seeds(hl)):
-            ds = mk()
-            for st in steps_for(ds, kind, lv2[0], 1):
-                jobs.append((i, lv2, 2, st))
     acc = Acc()
     check_literals(acc)
-    rows = par.pmap(_job, par.rotate(jobs, seed), procs, chunksize=1)
+    jobs = []
+    reps_info = {}
+    for i, (name, kind, mk) in enumerate(seeds(hl)):
+        ds = mk()
+        check_table(acc, ds, [[name]], 'seed') if kind == 'ht' else check_mt(acc, ds, [[name]], 'seed')
+        sf = field_names(ds, kind)
+        # depth 1 (full catalogue over every field) is run here, once; its results seed the worker jobs
+        results = []
+        for step in steps_for(ds, kind, 'full', None):
+            prog2 = [[name], list(step)]
+            acc.inc('programs')
+            acc.inc('programs_depth1')
+            try:
+                new, nk = apply_step(acc, ds, kind, step, 1, prog2)
+            except HarnessGap:
+                raise
+            except Exception as e:  # noqa: BLE001
+                cls, label = _rejection(e)
+                if cls == 'assign':
+                    acc.violation(f'assign-type-assert:{step[0]}:{step[1] if len(step) > 1 else ""}', label, prog2)
+                elif cls == 'reject':
+                    acc.inc('rejected')
+                    acc.inc(f'rejected:{label}')
+                    acc.inc(f'rejected_step:{step[0]}:{step[1] if len(step) > 2 else ""}:{label}')
+                elif cls == 'engine':
+                    acc.inc('needs_engine')
+                    acc.inc(f'needs_engine_step:{step[0]}')
+                else:
+                    acc.inc('other_exception')
+                    acc.inc(f'other_exception:{label}:{step[0]}:{step[1] if len(step) > 2 else ""}')
+                continue
+            acc.inc('accepted')
+            acc.inc(f'accepted_step:{step[0]}:{step[1] if len(step) > 2 else ""}')
+            if new is not None:
+                results.append((step, schema_sig(new, nk)))
+        for plan_name in TIER_PLANS[tier]:
+            levels, fresh_from, dedupe, count_from = PLANS[plan_name]
+            allowed = None
+            if levels[0] != 'full':
+                allowed = {tuple(x) for x in steps_for(ds, kind, levels[0], None)}
+            seen = set()
+            for step, sig in results:
+                if allowed is not None and tuple(step) not in allowed:
+                    continue
+                if dedupe:
+                    if sig in seen:
+                        acc.inc('expansions_skipped_same_schema')
+                        continue
+                    seen.add(sig)
+                jobs.append((i, plan_name, step))
+            reps_info[f'{name}:{plan_name}'] = len([j for j in jobs if j[0] == i and j[1] == plan_name])
+    ordered = par.rotate(jobs, seed)
+    rows = par.pmap(_job, ordered, procs, chunksize=max(1, len(ordered) // (procs * 16)))
     total = dict(acc.c)
     viol = dict(acc.viol)
     types = set(acc.types)
     samples = []
-    order = sorted(range(len(rows)), key=lambda k: repr(par.rotate(jobs, seed)[k]))
-    for k in order:
-        c, v, s, ty = rows[k]
+    for k in sorted(range(len(rows)), key=lambda k: repr(ordered[k])):
+        c, v, smp, ty = rows[k]
         for a, b in c.items():
             total[a] = total.get(a, 0) + b
         for sig, (msg, prog) in v.items():
-            if sig not in viol or len(prog) < len(viol[sig][1]):
+            if sig not in viol or (len(prog), repr(prog)) < (len(viol[sig][1]), repr(viol[sig][1])):
                 viol[sig] = (msg, prog)
         types.update(ty)
-        if s and len(samples) < 4:
-            samples.append(s[0])
+        if smp and len(samples) < 4:
+            samples.append(smp[0])
     cov = {
         'evaluations': total.get('expressions_checked', 0) + total.get('datasets_checked', 0) + total.get('literal_values', 0),
         'distinct_nontrivial': len(types),
-        'rule': 'distinct hail types (as strings) among the checked expressions / row types / literal types: each is a case where '
-                'the front end\'s type was compared with the type recomputed by the IR\'s own inference',
+        'rule': 'distinct hail types (as strings) among the checked expressions / dataset row types / literal types: each is a case '
+                'where the front end\'s type was compared with the type recomputed by the IR\'s own inference',
         'samples': samples,
         'exhaustive': True,
-        'bounds': {'quick': 'every program of <= 2 steps over the full catalogue; every program of 3 steps whose 2nd and 3rd step use '
-                            'the core catalogue',
-                   'thorough': 'every program of <= 3 steps where steps 1-2 use the full catalogue and step 3 the core '
-                               'catalogue'}[tier] + f'; {len(_state["cat"])} expression templates, {len(_state["dom"])} literal values, 3 seeds',
+        'bounds': {'quick': 'every 1-step program (full catalogue over every field); every 2-step program whose 2nd step applies the full '
+                            'catalogue to the fields the 1st step created, a dataset being expanded once per distinct schema; every 3-step '
+                            'program over the mini catalogue (same reduction), only its 3-step programs counted',
+                   'thorough': 'every program of <= 2 steps with the full catalogue over every field (no reduction); every 3-step program '
+                               'whose 1st step is from the full catalogue and whose 2nd and 3rd steps apply the core catalogue to fields '
+                               'created earlier, a dataset being expanded once per distinct schema'}[tier]
+                  + f'; {len(_state["cat"])} expression templates, {len(_state["dom"])} literal values, 3 seeds',
         'programs': total.get('programs', 0),
         'programs_accepted': total.get('accepted', 0),
         'programs_rejected_by_front_end': total.get('rejected', 0),
         'programs_needing_engine': total.get('needs_engine', 0),
         'programs_other_exception': total.get('other_exception', 0),
+        'expansions_skipped_same_schema': total.get('expansions_skipped_same_schema', 0),
+        'worker_jobs': reps_info,
         'expressions_checked': total.get('expressions_checked', 0),
         'ir_nodes_checked': total.get('ir_nodes_checked', 0),
         'refs_without_typed_binding': total.get('refs_without_typed_binding', 0),
@@ -1230,7 +1327,7 @@ def check(tier, seed, procs):
     }
     violations = [{'signature': sig, 'message': msg, 'replay': {'program': prog}} for sig, (msg, prog) in sorted(viol.items())]
     vac = None
-    if total.get('accepted', 0) < 100 or total.get('expressions_checked', 0) < 100 or len(types) < 20:
+    if not violations and (total.get('accepted', 0) < 100 or total.get('expressions_checked', 0) < 100 or len(types) < 20):
         vac = f'too little explored: {total.get("accepted", 0)} accepted programs, {len(types)} distinct types'
     return {
         'coverage': cov,
@@ -1242,6 +1339,8 @@ def check(tier, seed, procs):
             'hail runs against vf.hailenv (dummy backend) and the parsimonious shim; steps that need the engine are counted and skipped',
             'programs the front end rejects (TypeError, ExpressionException, LookupError, AttributeError, ValueError, '
             'NotImplementedError, HailUserError) are counted, never violations',
+            '"value satisfies type" for literals is judged by a reference predicate written for the check (missing allowed everywhere); '
+            'HailType.typecheck is run too but only reported, because it mishandles None in container positions',
         ],
         'vacuous': vac,
     }
